@@ -9,7 +9,7 @@ CONSTANTS
   MaxTicks = 0
   MaxFires = 0
   Api = FALSE
-  Known = {"D11", "D12", "D18", "D19"}
+  Known = {"D11", "D12", "D25", "D26"}
   SpinTopics = {2}
   BufCap = 100000
   RespCap = 100000
